@@ -24,6 +24,38 @@ for d in sorted(glob.glob(os.path.join(ROOT, "seeded", "*"))):
     else:
         how = "rc=%s %s" % (r.get("rc"), (r.get("lines") or [""])[0][:60])
     rows.append("| %s | %s | %s |" % (name, summ.replace("|", "/"), how.replace("|", "/")))
-print("| seeded change | what it changes | result of `./check %s` |" % "<property>")
-print("|---|---|---|")
-print("\n".join(rows))
+out = ["| seeded change | what it changes | result of `./check <property>` |", "|---|---|---|"] + rows
+caught = len([r for r in rows if "caught" in r])
+out.append("")
+out.append("%d of %d seeded changes are reported (exit 1 with a VIOLATION line); %d first reported by a failed proof "
+           "obligation, %d by the native differential check of a contract, %d by a property-specific bounded check."
+           % (caught, len(rows), len([r for r in rows if "failed obligation" in r]),
+              len([r for r in rows if "native-differential" in r]),
+              len([r for r in rows if "caught: bounded" in r and "native-differential" not in r])))
+# harmless refactorings
+hp = os.path.join(ROOT, "out", "harmless_results.json")
+if os.path.exists(hp):
+    hr = json.load(open(hp))
+    out += ["", "| harmless refactoring | what it changes | obligations re-verified | not discharged |", "|---|---|---|---|"]
+    for d in sorted(glob.glob(os.path.join(ROOT, "harmless", "*"))):
+        name = os.path.basename(d)
+        meta = json.load(open(os.path.join(d, "meta.json")))
+        r = hr.get(name)
+        summ = re.sub(r"\s+", " ", str(meta.get("summary", "")))[:150].replace("|", "/")
+        if not r:
+            out.append("| %s | %s | not run | |" % (name, summ))
+        elif "bad" not in r:
+            out.append("| %s | %s | error | %s |" % (name, summ, str(r.get("error"))[:60]))
+        else:
+            bad = "; ".join("%s %s" % (b["result"], b["name"][:60]) for b in r["bad"][:3]) + (" …" if len(r["bad"]) > 3 else "")
+            out.append("| %s | %s | %d | %s |" % (name, summ, r["obligations"], ("**%d**: " % len(r["bad"]) + bad.replace("|", "/")) if r["bad"] else "0"))
+text = "\n".join(out)
+dp = os.path.join(ROOT, "DESIGN.md")
+s = open(dp).read()
+a, b = "<!-- TABLE-9.8-BEGIN -->", "<!-- TABLE-9.8-END -->"
+if a in s:
+    s = s[:s.index(a) + len(a)] + "\n" + text + "\n" + s[s.index(b):]
+    open(dp, "w").write(s)
+    print("DESIGN.md section 9.8 updated")
+else:
+    print(text)
